@@ -1,6 +1,8 @@
 """C01 — exact GP posterior = closed-form Gaussian conditional on every computational path.
 
-Tie: correspondence.  For every random model the harness evaluates the model's OWN prior densely (joint mean /
+Tie: translator G7 (harness/translate/g7_exact_algebra.py regenerates lean/GPVerif/Gen/ExactAlgebra.lean from the Python
+AST of DefaultPredictionStrategy / ExactGP.__call__ on every run; Props/C01.lean proves the generated expressions equal
+the closed form; the driver executes them) AND correspondence.  For every random model the harness evaluates the model's OWN prior densely (joint mean /
 covariance on [train; test] from `model.forward`), builds the noise covariance from the likelihood's public
 parameters, ships everything as exact rationals to `lean/drivers/C01.lean` (which runs
 GPVerif/Model/ExactGP.lean at ℚ — the functions the theorems of GPVerif/Props/C01.lean are about) and compares
@@ -21,7 +23,7 @@ from props import _gpmodels as G
 
 ID = "C01"
 PROP_MODULES = ["GPVerif.Props.C01"]
-BUILD_TARGETS = ["GPVerif.Props.C01", "GPVerif.Model.ExactGP", "GPVerif.Model.Proto"]
+BUILD_TARGETS = ["GPVerif.Props.C01", "GPVerif.Gen.ExactAlgebra", "GPVerif.Model.ExactGP", "GPVerif.Model.Proto"]
 RULE = ("random ExactGP models cycling through 15 kernel families x 3 means x 3 single-task likelihoods x 4 batch "
         "patterns (+ Kronecker multitask models, kernel rank 0..t, likelihood rank 0..t), random float64 "
         "hyperparameters/data (n<=12, n*<=6, n*!=n, d<=3), each evaluated under settings cells of the grid "
@@ -29,7 +31,10 @@ RULE = ("random ExactGP models cycling through 15 kernel families x 3 means x 3 
         "skip_posterior_variances (quick: 10 random cells per model, thorough: all 64); one case = (model, batch "
         "element, cell); distinct = distinct (model description, cell); non-trivial = n>=2 and the cross-covariance "
         "K*x is not symmetric/square (n*!=n) and noise differs from 0")
-TRUSTED = ["torch / linear_operator primitives (Cholesky, CG, Lanczos, Kronecker eigendecomposition): contracts are "
+TRUSTED = ["translator harness/translate/g7_exact_algebra.py (Python AST of DefaultPredictionStrategy / ExactGP.__call__ -> "
+           "matrix-expression IR -> lean/GPVerif/Gen/ExactAlgebra.lean); its output is executed by the driver and "
+           "compared with the real code on every case",
+           "torch / linear_operator primitives (Cholesky, CG, Lanczos, Kronecker eigendecomposition): contracts are "
            "hypotheses of the theorems, monitored by residual",
            "harness/props/_gpmodels.py: dense evaluation of the model's own prior (model.forward on [train; test]) and "
            "the documented noise covariance built from the likelihood's public parameters",
@@ -40,6 +45,27 @@ ASSUMPTIONS = ["solve / cholesky / root_inv_decomposition of linear_operator sat
 EXHAUSTIVE = False
 
 EPS = 2.0 ** -52
+
+
+GEN = os.path.join(C.LEAN_DIR, "GPVerif", "Gen", "ExactAlgebra.lean")
+
+
+def generate(ctx):
+    """Translator G7: regenerate Gen/ExactAlgebra.lean from $VERIF_REPO's working tree (raises on constructs outside
+    its vocabulary) and make sure the generated module itself builds, so that the driver can execute it even when
+    the corollaries about it no longer do."""
+    import sys
+    sys.path.insert(0, os.path.join(C.VERIF, "harness"))
+    from translate import g7_exact_algebra as g7
+    r = g7.generate(C.REPO, GEN)
+    ctx.notes["gen_changed"] = r["changed"]
+    ctx.notes["gen_summary"] = r["summary"]
+    ctx.notes["gen_call_facts"] = r["facts"]
+    if r["casts"]:
+        ctx.notes["gen_shape_mismatches"] = r["casts"]
+    ok, log = C.lake_build(["GPVerif.Gen.ExactAlgebra"])
+    if not ok:
+        raise RuntimeError("generated GPVerif/Gen/ExactAlgebra.lean does not type-check:\n" + log[-1500:])
 
 
 # ------------------------------------------------------------------ helpers
@@ -86,6 +112,9 @@ def _parse_reply(rep):
         return None
     mats = []
     for part in rep[3:].split(" | "):
+        if part.strip() == "nogen":
+            mats += [None, None]
+            continue
         rows, _ = C.parse_mat(part.split())
         mats.append(np.array(C.fmat_to_float(rows), dtype=float))
     return mats
@@ -180,12 +209,41 @@ def dense_pieces(model, lik, tx, ty, desc, test_x, test_noise):
     return out
 
 
-def post_line(P, b):
+def cfg_code(cell, P):
+    """Branch configuration of the generated code for one settings cell (bit mask understood by drivers/C01.lean):
+    1 fast, 2 skip, 4 detach, 8 eager (joint size <= max_eager_kernel_size), 16 test_test_covar.dim() == 2."""
+    eager = (P["N"] + P["S"]) <= cell["eager"]
+    return (1 if cell["fast"] else 0) + (2 if cell["skip"] else 0) + (4 if cell["detach"] else 0) + \
+        (8 if eager else 0) + (16 if tuple(P["B"]) == () else 0)
+
+
+def gen_codes(cells, P, limit):
+    """Distinct configurations (up to `limit`) whose generated value needs no cached root: non-fast or skip."""
+    codes = []
+    for c in cells:
+        k = cfg_code(c, P)
+        if (not c["fast"] or c["skip"]) and k not in codes:
+            codes.append(k)
+    # prefer covering different leaves: sort by (skip, eager, dim2) signature diversity
+    seen, out = set(), []
+    for k in codes:
+        sig = k & (2 | 8 | 16)
+        if sig not in seen:
+            seen.add(sig)
+            out.append(k)
+    for k in codes:
+        if k not in out:
+            out.append(k)
+    return out[:limit]
+
+
+def post_line(P, b, codes=()):
     import numpy as np
     N, Sx = P["N"], P["S"]
     St = P["Stest"][b] if P["Stest"] is not None else np.zeros((Sx, Sx))
     return " ".join(["post", str(N), str(Sx), C.mat_tokens(P["J"][b]), C.vec_tokens(P["mj"][b]),
-                     C.mat_tokens(P["Strain"][b]), C.vec_tokens(P["y"][b]), C.mat_tokens(St)])
+                     C.mat_tokens(P["Strain"][b]), C.vec_tokens(P["y"][b]), C.mat_tokens(St),
+                     str(len(codes))] + [str(k) for k in codes])
 
 
 # ------------------------------------------------------------------ real side
@@ -372,8 +430,9 @@ class Rec:
     def __init__(self, P, b, mats):
         import numpy as np
         N = P["N"]
-        self.alpha, self.mean, self.cov, self.ncov, self.Ainv = mats
+        self.alpha, self.mean, self.cov, self.ncov, self.Ainv = mats[:5]
         self.alpha, self.mean = self.alpha[:, 0], self.mean[:, 0]
+        self.gen_raw = mats[5:]       # pairs (mean, covar) of the GENERATED exact_prediction, one per requested cfg
         J = P["J"][b]
         self.A = J[:N, :N] + P["Strain"][b]
         self.Kts, self.Ktt, self.mt = J[N:, :N], J[N:, N:], P["mj"][b][N:]
@@ -437,9 +496,11 @@ def correspondence(ctx, extra=False):
                 ctx.fail(f"exception:{_path(cell)}:{type(e).__name__}",
                          f"model(x*) raised {type(e).__name__}: {str(e)[:200]} on {desc['kernel']} {G.cell_name(cell)}",
                          {"kind": kind, "idx": idx, "kw": kw, "cell": cell, "desc": _slim(desc)})
-        lines = [post_line(P, b) for b in range(P["nb"])]
+        codes = gen_codes([c for c, _ in runs], P, 4 if thorough else 2)
+        lines = [post_line(P, b, codes) for b in range(P["nb"])]
         post_lines += lines
-        cases.append({"kind": kind, "idx": idx, "kw": kw, "desc": desc, "P": P, "runs": runs, "lines": lines})
+        cases.append({"kind": kind, "idx": idx, "kw": kw, "desc": desc, "P": P, "runs": runs, "lines": lines,
+                      "codes": codes})
         ctx.count("models")
         # ---- two-step cells on the same object: predict -> update data / parameters -> predict; the second
         #      prediction must be the conditional of the CURRENT data and parameters
@@ -458,10 +519,11 @@ def correspondence(ctx, extra=False):
                              f"lik={desc['lik']} batch={desc['batch']} {G.cell_name(cell)}",
                              {"kind": kind, "idx": idx, "kw": kw, "cell": cell, "history": list(done), "desc": _slim(desc)})
                     break
-                lines2 = [post_line(P2, b) for b in range(P2["nb"])]
+                codes2 = gen_codes([cell], P2, 1)
+                lines2 = [post_line(P2, b, codes2) for b in range(P2["nb"])]
                 post_lines += lines2
                 cases.append({"kind": kind, "idx": idx, "kw": kw, "desc": desc, "P": P2, "runs": [(cell, obs2)],
-                              "lines": lines2, "history": list(done)})
+                              "lines": lines2, "history": list(done), "codes": codes2})
                 ctx.count("history-cells:" + op)
     # ---- CG tolerance cells
     for i in range(4 if not thorough else 24):
@@ -537,7 +599,7 @@ def _compare(ctx, cs, b, R, cell, obs, pending):
             d["post_request"] = line
         return d
 
-    def check(key, what, got, exp, tol, primitive=None):
+    def check(key, what, got, exp, tol, primitive=None, tie=False):
         """|got - exp| <= tol, else a failure — unless `primitive` names an iterative linear_operator primitive whose
         *observed* output is checked separately (the `|given-…` comparison): then the deviation is attributed to
         the primitive's residual and recorded as an assumption failure of linear_operator."""
@@ -552,6 +614,12 @@ def _compare(ctx, cs, b, R, cell, obs, pending):
                                f"{err:.2e} of {key} on {where} attributed to the primitive (downstream algebra "
                                f"checked exactly from its observed output)")
             return True
+        if tie:
+            # the implementation disagrees with what the translator says the code is: the model <-> implementation
+            # tie is broken (the property itself is judged by the comparisons with the specification)
+            ctx.broke("correspondence", "generated algebra (Gen/ExactAlgebra.lean) vs implementation: " + key,
+                      f"{what}: |impl - generated| = {err:.3e} > tol {tol:.2e} on {where}")
+            return False
         ctx.fail(key + (f":after-{hist[-1]['op']}" if hist else ""),
                  f"{what}: |impl - exact| = {err:.3e} > tol {tol:.2e} on {where}",
                  replay({"observable": key, "err": err, "tol": tol, "got": np.asarray(got).tolist(),
@@ -585,11 +653,27 @@ def _compare(ctx, cs, b, R, cell, obs, pending):
         ctx.count("unobserved:mean_cache")
         prim_mean = ("CG solve (mean_cache, unobserved)", float("nan"))
     check(f"posterior-mean:{path}", "model(x*).mean", obs["mean"][b], R.mean, R.tol_mean, prim_mean)
+    # ---- the GENERATED exact_prediction under this cell's branch configuration (translator tie)
+    code = cfg_code(cell, P)
+    gen = None
+    codes = cs.get("codes") or []
+    if code in codes and len(R.gen_raw) >= 2 * (codes.index(code) + 1):
+        gen = (R.gen_raw[2 * codes.index(code)], R.gen_raw[2 * codes.index(code) + 1])
+        ctx.count("generated-vs-impl")
+        if gen[0] is None:
+            ctx.broke("correspondence", "generated algebra returned no value", f"cfg {code} on {where}")
+            gen = None
+    if gen is not None:
+        check(f"gen:posterior-mean:{path}", "model(x*).mean vs GENERATED exact_prediction", obs["mean"][b], gen[0][:, 0],
+              R.tol_mean, prim_mean, tie=True)
     # ---- covariance
     prim_cov = None
     if cell["skip"]:
         check("posterior-covar:skip", "skip_posterior_variances: covariance must be the zero operator",
               obs["cov"][b], np.zeros((Sx, Sx)), 0.0)
+        if gen is not None:
+            check("gen:posterior-covar:skip", "covariance vs GENERATED exact_prediction (skip)", obs["cov"][b], gen[1], 0.0,
+                  tie=True)
     else:
         tol_cov = R.tol_cov
         kind = "fast" if cell["fast"] else "exact"
@@ -604,15 +688,25 @@ def _compare(ctx, cs, b, R, cell, obs, pending):
                     prim_cov = ("Lanczos root_inv_decomposition (covar_cache)", gram_err)
                 check(f"covar_cache:{path}", "covar_cache covar_cache^T vs (Kxx+S)^-1", Rc @ Rc.T, R.Ainv,
                       R.rel * _absmax(R.Ainv) + R.dK * _norm_inf(R.Ainv) ** 2 + 1e-12, prim_cov)
-                line = " ".join(["root", str(N), str(Sx), str(Rc.shape[1]), C.mat_tokens(R.Ktt), C.mat_tokens(R.Kts),
-                                 C.mat_tokens(Rc)])
+                rcode = 1 + (4 if cell["detach"] else 0) + (code & 8)   # fast branch of the generated code; eager as in the cell
+                line = " ".join(["root", str(N), str(Sx), str(Rc.shape[1]), C.mat_tokens(P["J"][b]), C.mat_tokens(Rc),
+                                 str(rcode)])
                 aq = np.abs(R.Kts) @ np.abs(Rc)
                 sc = _absmax(R.Ktt) + _absmax(aq @ aq.T)
                 got = obs["cov"][b]
-                pending.append((line, lambda m, got=got, sc=sc, aq=aq, Rc=Rc: check(
-                    f"posterior-covar|given-cache:fast:{path}",
-                    "covariance vs exact predCovarRoot(K**, K*x, observed covar_cache)", got, m[0],
-                    R.rel_round * sc + R.dK * (1 + 2 * _norm_inf(aq @ np.abs(Rc).T)) + 1e-13)))
+
+                def on_root(m, got=got, sc=sc, aq=aq, Rc=Rc):
+                    tol = R.rel_round * sc + R.dK * (1 + 2 * _norm_inf(aq @ np.abs(Rc).T)) + 1e-13
+                    if m is None:
+                        ctx.broke("correspondence", "generated algebra returned no value (fast branch)", where)
+                        return
+                    ctx.count("generated-vs-impl")
+                    check(f"gen:posterior-covar|given-cache:fast:{path}",
+                          "covariance vs GENERATED exact_predictive_covar(fast branch) at the observed covar_cache",
+                          got, m[0], tol, tie=True)
+                    check(f"posterior-covar|given-cache:fast:{path}",
+                          "covariance vs exact predCovarRoot(K**, K*x, observed covar_cache)", got, m[2], tol)
+                pending.append((line, on_root))
             elif iterative:
                 ctx.count("unobserved:covar_cache")
                 prim_cov = ("Lanczos root (unobserved)", float("nan"))
@@ -633,6 +727,9 @@ def _compare(ctx, cs, b, R, cell, obs, pending):
                 ctx.count("unobserved:cg_solve")
                 prim_cov = ("CG solve (unobserved)", float("nan"))
         check(f"posterior-covar:{kind}:{path}", "model(x*).covariance_matrix", obs["cov"][b], R.cov, tol_cov, prim_cov)
+        if gen is not None and not cell["fast"]:
+            check(f"gen:posterior-covar:{kind}:{path}", "covariance vs GENERATED exact_prediction", obs["cov"][b], gen[1],
+                  tol_cov, prim_cov, tie=True)
         check(f"posterior-variance:{kind}:{path}", "model(x*).variance", obs["var"][b], np.diag(R.cov), tol_cov, prim_cov)
         check(f"posterior-variance-vs-diag:{kind}:{path}", "model(x*).variance vs diag(model(x*).covariance_matrix)",
               obs["var"][b], np.diag(obs["cov"][b]), 64 * EPS * R.sc_cov + R.dK * (1 + R.W) ** 2 + 1e-13)
@@ -682,9 +779,11 @@ def replay(ctx, payload):
     except Exception as e:
         print("replay: real code raised", type(e).__name__, e)
         return False
-    lines = [post_line(P, b) for b in range(P["nb"])]
+    codes = gen_codes([cell], P, 1)
+    lines = [post_line(P, b, codes) for b in range(P["nb"])]
     replies = _lines_parallel("C01", lines)
-    cs = {"kind": kind, "idx": idx, "kw": kw, "desc": desc, "P": P, "lines": lines, "history": hist or None}
+    cs = {"kind": kind, "idx": idx, "kw": kw, "desc": desc, "P": P, "lines": lines, "history": hist or None,
+          "codes": codes}
     pending = []
     for b in range(P["nb"]):
         mats = _parse_reply(replies[lines[b]])
